@@ -201,6 +201,13 @@ fn gen_case(r: &mut Prng, big: bool) -> Case {
     case.post.push(Op::Parse { prog: Prog::Chain(vec![rf("a"), rf("b"), rf("c")], vec!["+".into(), "*".into()]) });
     // describe() of a parsed program is as independent of what was evaluated before as evaluation is
     case.post.push(Op::Describe { prog: Prog::one(tern(bin("<", rf("a"), lit_i(2)), call("max", vec![rf("b"), Expr::List(vec![lit_i(1), un("-", rf("c"))])]), post(rf("a"), "++"))) });
+    // SLOW handlers: every other handler of the case is a scheduling point, so that other threads evaluate
+    // (the same programs, the same handler Arcs, their own contexts) while one is parked inside user code
+    for (i, h) in case.handlers.iter_mut().enumerate() {
+        if i % 2 == 0 && h.actions.is_empty() {
+            h.actions.push(Op::Pause);
+        }
+    }
     case
 }
 
@@ -227,6 +234,9 @@ impl AloneOracle {
         c.pre.push(op.clone());
         let out = rt.oracle_sim(&Arc::new(c));
         let r = out.result_of(OpId::Pre(n0)).cloned().unwrap_or(Res::P("oracle run did not complete".into()));
+        // which handlers the operation invoked, with which arguments, in order, is part of its outcome
+        let sig = crate::lin::handlers_by_op(&out.log).get(&OpId::Pre(n0)).cloned().unwrap_or_default();
+        let r = Res::Many(vec![r, Res::Text(sig)]);
         self.memo.insert(key, r.clone());
         r
     }
@@ -266,12 +276,14 @@ fn judge(case: &Arc<Case>, out: &RunOutput, oracle: &mut AloneOracle, rt: &mut R
     if results.len() != case.n_ops() {
         return Some(("incomplete".into(), format!("{} of {} operations returned", results.len(), case.n_ops())));
     }
-    for (id, res) in &results {
+    let sigs = crate::lin::handlers_by_op(&out.log);
+    for (id, raw) in &results {
         if matches!(id, OpId::Pre(_)) {
             continue;
         }
         let op = op_of(case, *id);
         let alone = oracle.alone(op, rt);
+        let res = &Res::Many(vec![raw.clone(), Res::Text(sigs.get(id).cloned().unwrap_or_default())]);
         // the engine is compared with itself here, so the text of an Err is part of the result
         if !res.same_exact(&alone) {
             return Some((
@@ -286,6 +298,7 @@ fn judge(case: &Arc<Case>, out: &RunOutput, oracle: &mut AloneOracle, rt: &mut R
             ));
         }
         // repeated execs of one AST on equal fresh contexts agree with each other
+        let res = raw;
         if let (Op::ParseExec { times, .. }, Res::Many(xs)) = (op, res) {
             if *times > 1 && xs.len() == 1 + 2 * (*times as usize) {
                 for t in 1..*times as usize {
